@@ -196,16 +196,25 @@ Merge(o1, o2) ==
 CbRuns(e, o) == e.cb.a # "none" /\ \E f \in o.fired : f[1] = e.id
 Possible(s, e) ==
     /\ Possible1(s, e)
-    /\ e.cb.a # "none" =>
+    /\ (e.cb.a # "none" /\ e.a = "Close") =>
+          \* the callback of request e.id, failed by close(), cancels its sibling e.cb.id
+          /\ e.cb.a = "Cancel" /\ e.id # e.cb.id
+          /\ InTbl(s, e.id) /\ ~Entry(s, e.id).canc /\ InTbl(s, e.cb.id) /\ ~Entry(s, e.cb.id).canc
+    /\ (e.cb.a # "none" /\ e.a # "Close") =>
           /\ e.a \in {"Frame", "Rest", "Cancel"}
           /\ e.cb.a \in {"MakeRequest", "Cancel", "Close", "Disconnect"}
           /\ LET r1 == Step1(s, e) IN
                   /\ CbRuns(e, r1.out)        \* a callback is only mentioned where it will run
                   /\ Possible1(r1.s, e.cb)
                   /\ (e.cb.a = "MakeRequest" => ~InTbl(r1.s, e.cb.id))
+\* close() completes several requests; the order is the implementation's, so whether the sibling
+\* that a callback cancels had already failed with "closed" or is still pending (then: "cancelled")
+\* is not determined -- either way it completes exactly once.  The model reports "closed"; the
+\* trace specification accepts either for that one request.
 Step(s, e) ==
     LET r1 == Step1(s, e) IN
-    IF CbRuns(e, r1.out)
+    IF e.a = "Close" THEN r1
+    ELSE IF CbRuns(e, r1.out)
     THEN LET r2 == Step1(r1.s, e.cb) IN [s |-> r2.s, out |-> Merge(r1.out, r2.out)]
     ELSE r1
 \* did API call `a` happen in this event (directly or from the callback)?
@@ -238,6 +247,7 @@ Events(st) ==
                           cb \in {Ev("Close", 0, 0), Ev("Disconnect", 0, 0)}
                                \cup {Ev("MakeRequest", i, 1) : i \in Ids}
                                \cup {Ev("Cancel", i, 0) : i \in Ids}}
+ \cup {EvCb("Close", i, 0, Ev("Cancel", j, 0)) : i \in Ids, j \in Ids}
 
 InitHist ==
     [ issued |-> <<>>, fires |-> [i \in Ids |-> 0], res |-> [i \in Ids |-> "pending"],
